@@ -18,7 +18,8 @@ RULE = (
     'access of absent keys; abandoned and interleaved enumerations. Later rounds: constructor rows given as '
     'dicts; exceptions raised by enumeration or sort are violations; unsigned and boolean columns. Round 8: '
     'dtype=str columns; list columns of mixed number types; refused rows (one value short, one too many, an '
-    'undeclared key). Distinct = distinct canonical JSON of the whole case.'
+    'undeclared key). Round 10: positions given as numpy integers; array mode: a pair of values in one slot, and '
+    'collectors without declared columns whose first dict row is refused. Distinct = distinct canonical JSON of the whole case.'
 )
 ASSUMPTIONS = [
     "keys are non-empty identifier strings not shadowed by class attributes; values have as many entries as fields",
@@ -52,6 +53,8 @@ def table_case(draw, keyed):
             st.tuples(st.just("get_key"), idx),
             st.tuples(st.just("get_pos"), idx),
             st.tuples(st.just("get_attr"), idx),
+            # a position computed with numpy (np.argmin(...), an element of np.arange(...)) is a position too
+            st.tuples(st.just("get_pos_np"), idx, st.sampled_from(["int64", "int32", "intp", "uint8"])),
             st.tuples(st.just("contains"), key),
             st.tuples(st.just("bad_set"), key, st.sampled_from([None, 5, 2.5])),     # a value that is not a sequence: refused
         )
@@ -94,6 +97,9 @@ def rows_case(draw):
         st.tuples(st.just("sort"), st.integers(0, ncol - 1), st.booleans()),
         # a row the collector has to refuse (one value short, one too many): it must leave the rows as they were
         st.tuples(st.just("bad_append"), row, st.sampled_from(["short", "long", "extra_key"])),
+        # array mode: a cell that is itself a pair of values cannot be stored in one slot of a column; whatever the
+        # collector does with such a row, the columns have to stay equally long and the earlier rows in place
+        st.tuples(st.just("seq_cell"), row, st.integers(0, ncol - 1)),
     )
     init = draw(st.lists(row, max_size=4))
     ops = draw(st.lists(op, min_size=1, max_size=16))
@@ -106,6 +112,21 @@ def rows_case(draw):
             # string columns of an array collector declared as in the documentation (dtype=str) or with a width
             "sdtype": draw(st.sampled_from(["U16", "str"])),
             "ops": [list(o) for o in ops], "init_dict": init_dict}
+
+
+@st.composite
+def lazy_array_case(draw):
+    """A collector without declared columns in array mode: the first accepted dict row names the columns."""
+    keysets = [["a", "b"], ["b", "a"], ["a", "c"], ["x"], ["a", "b", "c"]]
+    cell = st.floats(-1e6, 1e6, allow_nan=False) | st.integers(-5, 5).map(float)
+    rows = []
+    for _ in range(draw(st.integers(1, 6))):
+        ks = draw(st.sampled_from(keysets))
+        cells = [draw(cell) for _k in ks]
+        if draw(st.integers(0, 2)) == 0:
+            cells[draw(st.integers(0, len(ks) - 1))] = draw(st.sampled_from(["abc", "n/a", "one"]))
+        rows.append([list(ks), cells])
+    return {"kind": "lazy_array", "rows": rows}
 
 
 @st.composite
@@ -124,6 +145,7 @@ def strategies(tier):
         "table_keyed": (table_case(True), 1500, 40000),
         "table_list": (table_case(False), 500, 10000),
         "rows": (rows_case(), 1500, 40000),
+        "rows_lazy_array": (lazy_array_case(), 400, 8000),
         "grid_random": (grid_case(), 500, 10000),
         "comb": (comb_case, 800, 20000),
     }
@@ -269,6 +291,22 @@ def check_table(case, v):
                     return v.fail("table-" + name, f"step {step}: {e}")
                 if mutated and name == "get_pos":
                     nt = True
+            elif name == "get_pos_np":
+                if not keys:
+                    continue
+                pos = op[1] % len(keys)
+                npos = getattr(np, op[2])(pos)
+                try:
+                    rec = t[npos]
+                except Exception as e:
+                    return v.fail("table-get_pos", f"step {step}: t[np.{op[2]}({pos})] raised {e!r} although t[{pos}] is "
+                                                   f"the record of key {keys[pos]!r}")
+                e = _rec_eq(rec, fields, model[keys[pos]])
+                if e:
+                    return v.fail("table-get_pos", f"step {step}: t[np.{op[2]}({pos})]: {e}")
+                v.label("position_given_as_numpy_integer")
+                if mutated:
+                    nt = True
             elif name == "bad_set":
                 try:
                     if step % 2:
@@ -382,6 +420,20 @@ def check_rows(case, v):
             else:
                 return v.fail("rows-accepted", f"step {step}: append({bad!r}) to {len(names)} column(s) was accepted "
                                                f"(rows now {current_rows()[0]!r})")
+        elif op[0] == "seq_cell":
+            if not array:
+                continue
+            bad = list(op[1])
+            bad[op[2]] = (bad[op[2]], bad[op[2]])
+            try:
+                rc.append(bad)
+            except Exception:
+                v.label("refused_row_seq_cell")
+                nt = True
+            else:
+                rows, err = current_rows()
+                return v.fail("rows-accepted", f"step {step}: append({bad!r}) (a pair in the slot of column "
+                                               f"{names[op[2]]}) was accepted: {err or rows!r}")
         elif op[0] == "sort":
             col, rev = op[1], op[2]
             try:
@@ -421,6 +473,48 @@ def check_rows(case, v):
                 return v.fail("rows-getitem", f"step {step}: rc[{n!r}] = {colv!r}")
     v.nt(nt)
     v.label("rows_array" if array else "rows_list")
+
+
+def check_lazy_array(case, v):
+    """Model: no columns until a row is accepted; a row is accepted iff every cell is a number and (once columns exist)
+    its keys are exactly the columns; a refused row leaves no trace - in particular no columns."""
+    from scinumtools import RowCollector
+    rc = RowCollector(array=True)
+    cols, model = None, []
+    refused_first = False
+    for step, (ks, cells) in enumerate(case["rows"]):
+        numeric = all(isinstance(c, float) for c in cells)
+        ok = numeric and (cols is None or sorted(ks) == sorted(cols))
+        try:
+            rc.append(dict(zip(ks, cells)))
+            accepted = True
+        except Exception as ex:
+            accepted, why = False, repr(ex)
+        if accepted and not ok:
+            return v.fail("rows-accepted", f"step {step}: append({dict(zip(ks, cells))!r}) accepted (columns {cols})")
+        if not accepted and ok:
+            return v.fail("rows-raised", f"step {step}: append({dict(zip(ks, cells))!r}) to a collector with columns {cols} "
+                                         f"(earlier rows of this history: {case['rows'][:step]!r}) raised {why}")
+        if accepted:
+            if cols is None:
+                cols = list(ks)
+                if refused_first:
+                    v.nt(True)
+                    v.label("first_row_accepted_after_a_refused_first_row")
+            model.append([dict(zip(ks, cells))[c] for c in cols])
+        elif cols is None:
+            refused_first = True
+        want = (len(cols or []), len(model))
+        if rc.shape() != want or len(rc) != len(model):
+            return v.fail("rows-size", f"step {step}: shape {rc.shape()} len {len(rc)}, model {want} "
+                                       f"(history {case['rows'][:step + 1]!r})")
+        d = rc.to_dict()
+        if list(d.keys()) != list(cols or []):
+            return v.fail("rows-shape", f"step {step}: columns {list(d.keys())} != {cols}")
+        got = [list(map(float, d[c])) for c in (cols or [])]
+        if got != [list(col) for col in zip(*model)] and model:
+            return v.fail("rows-content", f"step {step}: columns {got!r} != rows {model!r}")
+    v.label("rows_lazy_array")
 
 
 def check_grid(case, v):
@@ -500,5 +594,5 @@ def check_comb(case, v):
 
 def check(case):
     v = Verdict()
-    {"table": check_table, "rows": check_rows, "grid": check_grid, "comb": check_comb}[case["kind"]](case, v)
+    {"table": check_table, "rows": check_rows, "grid": check_grid, "comb": check_comb, "lazy_array": check_lazy_array}[case["kind"]](case, v)
     return v
